@@ -129,25 +129,56 @@ Theorem C01_stmt_fragment_partial :
     in_mem (sp + 2) = true /\ ~ P (sp + 2) /\ sp + 2 <> 1 ->
     (forall v a, pool v = Some a -> P a /\ in_mem a = true /\ rd m0 a = v mod W) ->
     (forall x l, venv x = Some l ->
-       in_mem (addr_of sp l) = true /\ ~ scratch size nslots off0 og sp (addr_of sp l) /\ ~ P (addr_of sp l) /\ addr_of sp l <> 1) ->
+       in_mem (addr_of sp l) = true /\ ~ scratch no_free size nslots off0 og sp (addr_of sp l) /\ ~ P (addr_of sp l) /\ addr_of sp l <> 1) ->
     (forall x y lx ly, venv x = Some lx -> venv y = Some ly -> x <> y -> addr_of sp lx <> addr_of sp ly) ->
-    forall f, stmt_ok venv pool size nslots off0 og exitl ge P m0 lab sp f.
+    forall f, stmt_ok no_procs no_free any_depth venv pool size nslots off0 og exitl ge P m0 lab sp f.
 Proof. exact stmt_correct. Qed.
 Print Assumptions C01_stmt_fragment_partial.
 
-(* what stmt_ok says, spelled out for a statement that terminates normally *)
+(* what stmt_ok says, spelled out for a statement that terminates normally (for any table of callable procedures
+   pinfo, free-stack region Fr and call-depth invariant Dq) *)
 Theorem C01_stmt_normal_partial :
-  forall venv pool size nslots off0 og exitl ge P m0 lab sp f,
-    stmt_ok venv pool size nslots off0 og exitl ge P m0 lab sp f ->
-    forall s n code n' st st', cs venv pool size nslots off0 og exitl s n = Some (code, n') ->
+  forall pinfo Fr Dq venv pool size nslots off0 og exitl ge P m0 lab sp f,
+    stmt_ok pinfo Fr Dq venv pool size nslots off0 og exitl ge P m0 lab sp f ->
+    forall s n code n' st st', cs pinfo venv pool size nslots off0 og exitl s n = Some (code, n') ->
     exec f ge s st = Ret Normal st' ->
-    forall m pos nxt a b inp, Rel venv ge P m0 sp st m -> code_at (C P m0) lab pos code nxt ->
+    forall m pos nxt a b inp, Rel Dq venv ge P m0 sp st m -> code_at (C P m0) lab pos code nxt ->
     0 <= pos -> nxt < W -> 0 <= lab exitl < W ->
     exists outs a' b' m',
       runs inp (mk pos a b 0 m) (map wr_ev outs) inp (mk nxt a' b' 0 m') /\
-      Rel venv ge P m0 sp st' m' /\ post st st' outs /\ frame_only venv size nslots off0 og sp m m'.
+      Rel Dq venv ge P m0 sp st' m' /\ post st st' outs /\ frame_only Fr venv size nslots off0 og sp m m'.
 Proof. exact stmt_normal. Qed.
 Print Assumptions C01_stmt_normal_partial.
+
+(* (4c) PARTIAL: procedure-call statements `p(e1, .., en)` with call-free actuals (genProcCall: the actuals are stored
+   to the outgoing words sp+1.., then LDAP link; BR entry; link:), relative to a specification of what the callee
+   does.  `call_spec f'`: entered at its entry label with the return address in areg and the actuals stored, the
+   callee comes back to that address with the caller's relation restored for the state XSem's `invoke` (fuel f')
+   yields, having emitted exactly the outputs, and having changed only the caller's outgoing area, the free stack
+   Fr below the frame, or words of variables in scope.  If every procedure in pinfo meets call_spec for all smaller
+   fuels, the statement theorem holds for bodies that contain such calls (any nesting, loops, recursion through
+   the fuel).  Missing: the proof that the prologue/body/epilogue of each procedure meets call_spec (it needs the
+   statement theorem at the callee's frame: the program-level induction), function calls, calls inside operands. *)
+Theorem C01_stmt_calls_partial :
+  forall (pinfo : string -> option pframe) (Fr : Z -> Prop) (Dq : nat -> Prop)
+         (venv : string -> option loc) (pool : Z -> option Z) (size nslots off0 og : Z) (exitl : label) (ge : genv)
+         (P : Z -> Prop) (m0 : WMap.t) (lab : label -> Z) (sp : Z),
+    0 <= tlo size nslots sp /\ fb size sp - off0 < MEMW ->
+    (forall a, T size nslots sp off0 a -> ~ P a) ->
+    ~ T size nslots sp off0 1 ->
+    (forall a, O og sp a -> in_mem a = true /\ ~ P a /\ a <> 1 /\ ~ T size nslots sp off0 a) ->
+    (forall a, Fr a -> ~ P a /\ a <> 1) ->
+    in_mem (sp + 2) = true /\ ~ P (sp + 2) /\ sp + 2 <> 1 ->
+    (forall v a, pool v = Some a -> P a /\ in_mem a = true /\ rd m0 a = v mod W) ->
+    (forall x l, venv x = Some l ->
+       in_mem (addr_of sp l) = true /\ ~ scratch Fr size nslots off0 og sp (addr_of sp l) /\ ~ P (addr_of sp l) /\ addr_of sp l <> 1) ->
+    (forall x y lx ly, venv x = Some lx -> venv y = Some ly -> x <> y -> addr_of sp lx <> addr_of sp ly) ->
+    (forall p pi, pinfo p = Some pi -> 0 <= lab (pf_entry pi) < W) ->
+    (forall p pi st n, pinfo p = Some pi -> call_target ge p st <> TSys n) ->
+    forall f, (forall f', (f' < f)%nat -> call_spec pinfo Fr Dq venv size nslots off0 og ge P m0 lab sp f') ->
+    stmt_ok pinfo Fr Dq venv pool size nslots off0 og exitl ge P m0 lab sp f.
+Proof. exact stmt_correct_calls. Qed.
+Print Assumptions C01_stmt_calls_partial.
 
 (* (5) the hypothesis code_at of (4) is what the assembler side delivers: where the ISA's own decoder reads
    instruction i (for a branch: with its label's position relative to the next instruction as operand) in an image
